@@ -655,6 +655,14 @@ class Runner:
                     locks.append(os.path.join(fs, ref + ".lock"))
                 except OSError:
                     pass
+            elif st.get("lock", "index") == "ref":
+                # the index can be locked and written, the commit cannot be made
+                try:
+                    with open(os.path.join(fs, ".git", "HEAD")) as f:
+                        ref = f.read().strip().split("ref: ", 1)[-1]
+                    locks.append(os.path.join(fs, ".git", ref + ".lock"))
+                except OSError:
+                    pass
             else:
                 locks.append(os.path.join(fs, ".git", "index.lock"))
         made = []
@@ -675,6 +683,7 @@ class Runner:
                 except OSError:
                     pass
         self.stats["locked-requests"] += 1
+        self.stats["locked-requests:" + ("bare" if (mc is not None and mc.bare) else st.get("lock", "index"))] += 1
         if not self.last.get("ack"):
             self.stats["locked-requests-refused"] += 1
         return touched
